@@ -25,7 +25,8 @@
   for (i = 0; i < n; ++i) ((ot *)rdata)[i] = (ot)f(((it *)cdata)[i])
 
 #define fargs(x) (((x) < 0) ? M_PI : 0)
-#define fargu(x) (((x) & (1 << sizeof((x)))) ? M_PI : 0)
+/* the argument of an unsigned (hence non-negative) value is zero */
+#define fargu(x) (0 * (x))
 
 #define EXTRACT_REPRR2(it,ot,fb,fr) \
   switch (repr) { \
